@@ -41,6 +41,9 @@ CHECKS = {
  "C02": dict(cat="model_checking", tech=PF % "C02",
     text="Responses with 1-4 Via entries in every layout x 11 entry shapes (port +/-, received, rport valued/valueless/alone, TCP, TLS, SCTP) x 7 status codes x 5 header orders: model-checked (operational PopVia/next-hop vs declarative RespHop) and executed against live loopback sinks; TLC judges relayed-or-not, destination triple and the remaining Via stack.",
     note=TB + "the closed-loop return-path consequence is covered by the dialog/history driver (C04) where requests and responses travel through the same proxy.", ref="5/C02"),
+ "C07": dict(cat="model_checking", tech=PF % "C07" + "; the YAML wiring is covered by a conformance driver through startProxy with real sockets (no design to model-check there)",
+    text="Stamping relation: rport {absent, valueless, spoofed} x received {absent, spoofed} x 1-3 (quick) / 1-4 (thorough) Via entries x received-support on/off x relaying paths model-checked and executed; plus the wiring: objects created by loadConfigFromReader + startProxy for no-received true/false/absent with a real UDP listener, an accepted TCP connection and the readers of outbound TCP connections (TCP backend, TCP next hop), judged by the same relation.",
+    note=TB + "the wiring part is conformance only (configuration plumbing); deadlines of 2 s on loopback deliveries.", ref="5/C07"),
 }
 NA_REASON = "check not built yet (work in progress; see DESIGN.md section 9)"
 
